@@ -525,6 +525,46 @@ def config_trees(ctx):
                 break
 
 
+def gym_ids(ctx):
+    """every registered gym id MAKES the environment its packaged file describes: gym.make(id) (through gym's own registry, the way a user gets
+    an environment) next to an environment built from that file, same seed, same actions -- same states and rewards"""
+    import gym
+    from gym_gridverse import gym as gvgym
+    r = ctx.rng
+    for gid, fname in sorted(gvgym.STRING_TO_YAML_FILE.items()):
+        path = os.path.join(vt.boot.REPO, 'gym_gridverse', 'registered_envs', fname)
+        if not os.path.exists(path):
+            continue          # reported by the table check above
+        try:
+            made = gym.make(gid)
+            inner = made.unwrapped.outer_env.inner_env
+        except Exception as e:  # noqa: BLE001
+            ctx.violation(f'gym.make({gid!r}) raised {type(e).__name__}: {e}', {'id': gid, 'file': fname})
+            continue
+        ref = factory_env_from_data(envs.load_yaml(path))
+        seed = r.randrange(1 << 30)
+        inner.set_seed(seed)
+        ref.set_seed(seed)
+        acts = [r.randrange(len(ref.action_space.actions)) for _ in range(12)]
+        ctx.case(('gym-id', gid), True, {'id': gid, 'file': fname})
+        ctx.count('gym id', 'made')
+        try:
+            same = len(inner.action_space.actions) == len(ref.action_space.actions)
+            inner.reset()
+            ref.reset()
+            same = same and core.same(wire.cstate(inner.state), wire.cstate(ref.state))
+            for a in acts:
+                if not same:
+                    break
+                same = inner.step(inner.action_space.actions[a]) == ref.step(ref.action_space.actions[a]) and core.same(wire.cstate(inner.state), wire.cstate(ref.state))
+        except Exception as e:  # noqa: BLE001
+            ctx.violation(f'the environment made for gym id {gid} raised {type(e).__name__} while being driven beside the one built from {fname}', {'id': gid, 'file': fname})
+            continue
+        if not same:
+            ctx.violation(f'gym id {gid} does not make the environment its packaged file {fname} describes (same seed, same actions: different states / rewards)',
+                          {'id': gid, 'file': fname, 'seed': seed, 'actions': acts})
+
+
 def run(ctx):
     ctx.rule = ('(a) 6 registries x every registered name (+ unknown) x random keyword sets incl. missing required, extra and falsy-valued keys; '
                 '(b) 21 shipped files: copies, ids, build, purity, repeatability, three-way trajectories (factory / by hand / model) with mid-episode resets; '
@@ -535,6 +575,7 @@ def run(ctx):
     shipped(ctx)
     corrupted(ctx)
     config_trees(ctx)
+    gym_ids(ctx)
 
 
 if __name__ == '__main__':
